@@ -55,13 +55,21 @@ def gcc_case(cli, sc, idx, prog, branch):
     b = os.path.join(d, "build")
     os.makedirs(os.path.join(b, "sub"), exist_ok=True)
     os.makedirs(os.path.join(d, "tmp"))
+    os.makedirs(os.path.join(b, "include"), exist_ok=True)
     for rel, text in prog["files"].items():
         with open(os.path.join(b, rel), "w") as f:
             f.write(text)
+    os.makedirs(os.path.join(b, "include"), exist_ok=True)
+
+    def compile_cmd(u):
+        # absolute include directory / absolute unit path: the compiler records these sources under an absolute name
+        inc = ["-I" + os.path.join(b, "include")] if prog.get("abs_include") else []
+        src = os.path.join(b, u) if u in prog.get("abs_units", []) else u
+        return ["gcc", "--coverage", "-O0"] + inc + ["-c", src, "-o", u[:-2] + ".o"]
     objs = []
     for u in prog["units"]:
         o = u[:-2] + ".o"
-        p = sh(["gcc", "--coverage", "-O0", "-c", u, "-o", o], b)
+        p = sh(compile_cmd(u), b)
         if p.returncode != 0:
             return {"driver_error": "gcc failed: " + p.stderr.decode()[-500:]}
         objs.append(o)
@@ -77,11 +85,12 @@ def gcc_case(cli, sc, idx, prog, branch):
     for k, u in enumerate(stale):
         with open(os.path.join(b, u), "a") as f:
             f.write("unsigned stale_extra_%d(unsigned a)\n{\n    return a + %d;\n}\n" % (k, k + 1))
-        p = sh(["gcc", "--coverage", "-O0", "-c", u, "-o", u[:-2] + ".o"], b)
+        p = sh(compile_cmd(u), b)
         if p.returncode != 0:
             return {"driver_error": "gcc (stale recompilation) failed: " + p.stderr.decode()[-500:]}
-    if not os.listdir(os.path.join(b, "sub")):
-        os.rmdir(os.path.join(b, "sub"))
+    for sd in ("sub", "include"):
+        if not os.listdir(os.path.join(b, sd)):
+            os.rmdir(os.path.join(b, sd))
     # (a) the toolchain's own account: gcov -b -c (text) and gcov -b -c -j (JSON), per notes file
     acct = os.path.join(d, "acct")
     shutil.copytree(b, acct)
@@ -189,12 +198,19 @@ def gcc_stream(chk, cli, ncases):
     # stale translation units (gcov fails on them but leaves its output behind): they must contribute nothing, for every thread count
     d3 = dict(d1, stale=["alpha.c", "io.test.c"])
     d4 = dict(d2, stale=["zeta.c"], runs=["7", "2"])
-    progs = [(-1, w, False), (-2, d1, True), (-3, d2, False), (-4, d3, False), (-5, d4, True)] + progs
+    # sources under absolute names: header in an include directory given as an absolute -I path, unit compiled by absolute path
+    hdr = "#ifndef ABSINC_H\n#define ABSINC_H\nstatic inline int absinc_fn(int x)\n{\n    if (x > 2)\n        return x - 1;\n    return x + 1;\n}\n#endif\n"
+    d5 = {"files": {"main.c": '#include "absinc.h"\n' + main.replace("return u1(n)", "return absinc_fn(n) + u1(n)"),
+                    "alpha.c": unit(1), "beta.c": '#include "absinc.h"\n' + unit(2).replace("return a;", "return absinc_fn(a);"),
+                    "gamma.c": unit(3), "delta.c": unit(4), "eps.c": unit(5), "include/absinc.h": hdr},
+          "units": ["main.c", "alpha.c", "beta.c", "gamma.c", "delta.c", "eps.c"], "runs": ["3", "1"], "pair_line": False,
+          "abs_include": True, "abs_units": ["gamma.c"]}
+    progs = [(-1, w, False), (-2, d1, True), (-3, d2, False), (-4, d3, False), (-5, d4, True), (-6, d5, True)] + progs
     with concurrent.futures.ThreadPoolExecutor(max_workers=8) as ex:
-        outs = list(ex.map(lambda t: gcc_case(cli, sc, t[0] + 5, t[1], t[2]), progs))
+        outs = list(ex.map(lambda t: gcc_case(cli, sc, t[0] + 6, t[1], t[2]), progs))
     known = {e["key"]: e for e in vlib.known_findings(chk.pid) if e.get("status") == "known"}
     dist = {"programs": len(progs), "runs_0": 0, "runs_1": 0, "runs_2plus": 0, "units_multi": 0, "with_header": 0, "with_subdir": 0,
-            "pair_line": 0, "branch": 0, "units_total": 0, "programs_with_dotted_unit_name": 0, "programs_with_stale_units": 0, "stale_units": 0, "failed_items_in_model_runs": 0, "thread_counts": list(THREADS), "lines_compared": 0, "functions_compared": 0, "known_class_lines": 0,
+            "pair_line": 0, "branch": 0, "units_total": 0, "programs_with_dotted_unit_name": 0, "programs_with_stale_units": 0, "programs_with_absolute_include_dir": 0, "units_compiled_by_absolute_path": 0, "absolute_source_files_compared": 0, "stale_units": 0, "failed_items_in_model_runs": 0, "thread_counts": list(THREADS), "lines_compared": 0, "functions_compared": 0, "known_class_lines": 0,
             "latch_multiple": 0, "latch_single": 0}
     exprs, ecases = [], []
     pending_known = []
@@ -208,6 +224,8 @@ def gcc_stream(chk, cli, ncases):
         dist["units_multi"] += len(prog["units"]) > 1
         dist["units_total"] += len(prog["units"])
         dist["programs_with_stale_units"] += bool(prog.get("stale"))
+        dist["programs_with_absolute_include_dir"] += bool(prog.get("abs_include"))
+        dist["units_compiled_by_absolute_path"] += len(prog.get("abs_units", []))
         dist["stale_units"] += len(prog.get("stale", []))
         dist["failed_items_in_model_runs"] += sum(not it["run_ok"] for it in o["items"])
         dist["programs_with_dotted_unit_name"] += any(os.path.basename(u).count(".") > 1 for u in prog["units"])
@@ -240,6 +258,7 @@ def gcc_stream(chk, cli, ncases):
             viol = "files differ: gcov %s grcov %s" % (sorted(acc), sorted(rep))
         in_class = []
         for s in sorted(set(acc) & set(rep)):
+            dist["absolute_source_files_compared"] += s.startswith("/")
             multi = set(o["json"][s]["multi"])
             got = dict((l, c) for l, c in rep[s]["lines"])
             for l in sorted(set(got) | set(acc[s]["lines"])):
@@ -422,12 +441,17 @@ def llvm_stream(chk, cli, ncases):
             "canned": {"B0": [["src/server.c", cov1(3)]], "B1": [["src/client.c", cov1(5)]], "B3": [["src/helper.c", cov1(7)]],
                        "B4": [["src/server.c", cov1(2)]]}, "garbage": {},
             "branch": False, "threads": [1, 2, 4], "abs_args": [False], "merge_fails": False}
-    cases = [wit, same] + cases
+    # profile names that differ only by '/' versus '_', in a zip and in a directory
+    coll = dict(same, inputs=[{"kind": "zip", "name": "profiles.zip", "files": [["a/b.profraw", "P1"], ["a_b.profraw", "P2"], ["c.profraw", "P3"]], "noise": []},
+                              {"kind": "plain", "name": "plain.profraw", "files": [["plain.profraw", "P4"]], "noise": []}], threads=[1, 2])
+    coll2 = dict(same, inputs=[{"kind": "dir", "name": "dir1", "files": [["x/y.profdata", "P1"], ["x_y.profdata", "P2"], ["run/1.profraw", "P3"], ["run_1.profraw", "P4"]], "noise": []}],
+                 threads=[2])
+    cases = [wit, same, coll, coll2] + cases
     with concurrent.futures.ThreadPoolExecutor(max_workers=6) as ex:
         outs = list(ex.map(lambda t: llvm_case(cli, sc, t[0], t[1]), enumerate(cases)))
     known = {e["key"]: e for e in vlib.known_findings(chk.pid) if e.get("status") == "known"}
     dist = {"cases": len(cases), "grcov_runs": 0, "profiles": 0, "inputs_dir": 0, "inputs_zip": 0, "inputs_plain": 0, "both_kinds": 0,
-            "same_name_in_several_archives": 0, "binaries": 0, "executables": 0, "failing_exports": 0, "garbage_exports": 0,
+            "same_name_in_several_archives": 0, "archives_with_slash_underscore_colliding_names": 0, "binaries": 0, "executables": 0, "failing_exports": 0, "garbage_exports": 0,
             "non_executables": 0, "hidden_or_ignored_executables": 0, "extra_exports_of_non_executables": 0, "single_file_binary_path": 0,
             "merge_failure_cases": 0, "reports_with_shared_files": 0, "cases_with_same_named_executables": 0, "class_executables_not_exported": 0, "class_executables_exported": 0}
     exprs, ecases = [], []
@@ -438,6 +462,9 @@ def llvm_stream(chk, cli, ncases):
         for inp in case["inputs"]:
             dist["inputs_" + inp["kind"]] += 1
         dist["both_kinds"] += bool(exp["profraw"]) and bool(exp["profdata"])
+        for inp in case["inputs"]:
+            flat = [rel.replace("/", "_") for rel, _ in inp["files"]]
+            dist["archives_with_slash_underscore_colliding_names"] += len(flat) != len(set(flat))
         rels = [rel for inp in case["inputs"] if inp["kind"] != "plain" for rel, _ in inp["files"]]
         dist["same_name_in_several_archives"] += len(rels) != len(set(rels))
         dist["binaries"] += len(case["bins"]["ents"])
@@ -464,6 +491,11 @@ def llvm_stream(chk, cli, ncases):
                 want = sorted(exp[k] for k in kinds)
                 if got != want:
                     viol = ("each-profile-once", "merge inputs %s expected %s" % (got, want))
+                # identity by CONTENT: sha1 of every file the merge tool was given vs sha1 of every generated profile
+                goth = sorted(sorted(m["hashes"]) for m in r["merges"])
+                wanth = sorted(sorted(tg.profile_hash(i) for i in exp[k]) for k in kinds)
+                if viol is None and goth != wanth:
+                    viol = ("each-profile-once", "content hashes of the merge inputs %s differ from those of the discovered profiles %s" % (goth, wanth))
                 for m in r["merges"]:
                     if m["argv"][:5] != ["merge", "-f", "-", "-sparse", "-o"] or len(m["argv"]) != 6:
                         viol = ("each-profile-once", "unexpected llvm-profdata arguments %s" % m["argv"])
@@ -583,9 +615,9 @@ def run(chk):
     chk.extra["toolchain"] = {"gcov": v, "gcc": sh(["gcc", "--version"], "/").stdout.decode().split("\n")[0]}
     chk.cov["rule"] = ("(GCC) seeded C programs (1-3 translation units, optional sub-directory unit, header with static inline functions, straight-line / "
                        "if-else / for / while / switch / nested / ternary bodies, optional two functions on one line), gcc --coverage -O0, 0-3 runs; "
-                       "gcov -b -c text account (cross-checked with gcov --json-format) vs grcov -t lcov [--branch] --threads 1,2,3,4,8; several translation units per program, some with an extra dot in the file name, some stale (recompiled after the run: gcov fails on them and they must contribute nothing); glue model fed with "
+                       "gcov -b -c text account (cross-checked with gcov --json-format) vs grcov -t lcov [--branch] --threads 1,2,3,4,8; several translation units per program, some with an extra dot in the file name, a header with executable code in an include directory given as an absolute -I path and units compiled through their absolute path (sources matched by the name gcov itself reports), some stale (recompiled after the run: gcov fails on them and they must contribute nothing); glue model fed with "
                        "what `gcov <gcno> -i` leaves in a worker directory.  (LLVM) recording llvm-profdata/llvm-cov stand-ins under --llvm-path; "
-                       "layouts over directories, zips, plain arguments (same relative names in several archives, _1 suffixes, noise files, both profile kinds); "
+                       "layouts over directories, zips, plain arguments (same relative names in several archives, names differing only by '/' vs '_', _1 suffixes, unique bytes per profile and sha1 of every merge input logged by the stand-in, noise files, both profile kinds); "
                        "binary trees with ELF files with/without exec bit, distinct executables sharing a file name in different directories, scripts, text, empty and 1-byte files, failing and unparsable exports, dot-directories, "
                        ".ignore rules, single-file binary path, merge failure; non-trivial = distinct case whose run exported at least one binary / distinct program")
     chk.cov["trusted_base"] = ["Coq kernel; vm_compute for the correspondence", "gcc 12 / gcov 12 themselves (the account IS gcov's output)",
